@@ -703,7 +703,13 @@ class FnTranslator:
                 if not blocks: continue
                 h = innermost(blocks)
                 if h is None: continue
-                s.sunk[h].append('%s %s; %s %s = &%s;' % (ctype[sl], sl, ctype[c], c, sl))
+                # DFCC (cbmc 6.11) registers a loop-local object in the loop's write set only if the loop assigns it DIRECTLY somewhere;
+                # a slot that is only written through its address (by callees) would fail every frame check.  The slot is uninitialised
+                # at this point anyway: give it its nondeterministic value by an explicit direct assignment.
+                nd = 'nondet_VERIF_' + re.sub(r'\W', '_', ctype[sl].replace('*', '_p'))
+                if not hasattr(s.em, 'nondets'): s.em.nondets = collections.OrderedDict()
+                s.em.nondets[nd] = ctype[sl]
+                s.sunk[h].append('%s %s; %s %s = &%s; %s = %s();' % (ctype[sl], sl, ctype[c], c, sl, sl, nd))
                 s.sunk_names |= {c, sl}; kill.add(init_line[c])
             else:
                 blocks = occ.get(c, set())
@@ -1226,6 +1232,7 @@ def translate(path, cfg):
     out += gl
     out.append('/* ---- type aliases requested by the unit */')
     out += aliases
+    for nd, ct in getattr(em, 'nondets', {}).items(): out.append('%s %s(void);   /* no body: a nondeterministic value */' % (ct, nd))
     out.append('/* ---- prototypes */')
     out += sigs
     out.append('#ifdef CONTRACTS\n#include CONTRACTS\n#endif')
